@@ -15,6 +15,7 @@ def main(seed, n, layer="interp"):
             p = P.make_parser(text, None)
         except Exception as e:
             print("LOAD-EXC", type(e).__name__, e, "\n", text); continue
+        gm = P.load_generated(p.generate()) if layer != "interp" else None
         ups = set()
         gl = "G " + P.ser_rules(p.rules, ups)
         for (nm, pat) in ups:
@@ -24,7 +25,7 @@ def main(seed, n, layer="interp"):
             for inp in G.gen_inputs(rng, rules, start, feats, 6):
                 k = 0
                 lines.append(f"P {layer} {start} {k} 400 {P.enc_str(inp)}")
-                expect.append(P.run_parse(p.parse, start, inp, k))
+                expect.append(P.run_parse(p.parse if layer == "interp" else gm.parse, start, inp, k))
                 meta.append((gname, text, start, inp))
     outs = run_driver(lines, shards=1)
     stats = collections.Counter()
